@@ -1,17 +1,17 @@
 """Scenario construction shared by C05 and C14 from InboundGen behaviours."""
 import vlib
 
-GEN = ('CONSTANTS Node = {%s} Client = {%s} Msgs = {%s} Ids = {%s} HostsOf <- GHosts NodeOf <- GNodeOf Depth = %d\n'
+GEN = ('CONSTANTS Node = {%s} Client = {%s} Msgs = {%s} Ids = {%s} HostsOf <- GHosts NodeOf <- GNodeOf Depth = %d GQos = {%s}\n'
        'SPECIFICATION GSpec\nCONSTRAINT Dump\nCHECK_DEADLOCK FALSE\n')
 HOSTS = {"m1": [1, 2], "m2": [2], "m3": [1], "m4": [], "m5": [2, 3]}   # m5: two destinations that are both remote for a publisher on node 1
 PUBNODE = {"c1": 1, "c2": 2}
 PUBCONN = {"c1": 1, "c2": 2}
 
 
-def gen(run, name, nodes, clients, msgs, ids, depth, simulate=None):
+def gen(run, name, nodes, clients, msgs, ids, depth, simulate=None, qos=(0, 1, 2)):
     return vlib.gen_behaviours(run, "InboundGen", "Gen_Inbound_%s.cfg" % name,
                                GEN % (", ".join(map(str, nodes)), ", ".join('"%s"' % c for c in clients),
-                                      ", ".join('"%s"' % m for m in msgs), ", ".join(map(str, ids)), depth),
+                                      ", ".join('"%s"' % m for m in msgs), ", ".join(map(str, ids)), depth, ", ".join(map(str, qos))),
                                simulate=simulate, depth=(depth * 6) if simulate else None)
 
 
